@@ -603,7 +603,7 @@ static void ptr_tests(std::mt19937_64& rng, bool thorough)
       reps.push_back(delta + o);
     }
   }
-  for (int i = 0; i < (thorough ? 200000 : 20000); i++) {
+  for (int i = 0; i < (thorough ? 60000 : 20000); i++) {
     reps.push_back((GP)rng());
   }
   auto pp = sb->malloc_in_sandbox<int*>();
